@@ -610,7 +610,7 @@ pub fn exec_case(case: &Case, opt: &ExecOpt) -> Outcome {
             }
         }
         if out.violation.is_none() && !w.stub_faults.is_empty() && dut_box.is_ok() {
-            if orc.init_state || orc.reset || orc.fault_contract {
+            if orc.init_state || orc.reset || orc.fault_contract || orc.picture || orc.framing {
                 out.violation = Some(viol(case, "undriven-pin-sampled", "init", -1, w.stub_faults[0].clone()));
             } else {
                 out.skipped = Some("init sampled a pin that was never driven");
